@@ -233,7 +233,7 @@ func (a *Agent) hooks(proc *process.Process, sym *symbol.Symbol, in *port.InPort
 		// lock: a published frame is never modified, it is replaced by an updated copy.
 		var frame *Frame
 		for i, f := range a.frames[proc.ID()] {
-			if f.Symbol == sym && (f.InPort == in || f.OutPort == out) && f.InPck == nil {
+			if f.Symbol == sym && (f.InPort == in && f.OutPort == out) && f.InPck == nil {
 				frame = &Frame{}
 				*frame = *f
 				frame.InPck = pck
@@ -266,7 +266,7 @@ func (a *Agent) hooks(proc *process.Process, sym *symbol.Symbol, in *port.InPort
 
 		var frame *Frame
 		for i, f := range a.frames[proc.ID()] {
-			if f.Symbol == sym && (f.InPort == in || f.OutPort == out) && f.OutPck == nil {
+			if f.Symbol == sym && (f.InPort == in && f.OutPort == out) && f.OutPck == nil {
 				frame = &Frame{}
 				*frame = *f
 				frame.OutPck = pck
